@@ -1,3 +1,4 @@
+import errno
 import importlib.util
 import os
 import stat
@@ -78,6 +79,12 @@ class BaseFiles(Generic[Interface]):
             return stat_result, stat.S_ISREG(stat_result.st_mode)
         except (FileNotFoundError, NotADirectoryError):
             return None, False
+        except ValueError:  # embedded null byte
+            return None, False
+        except OSError as exc:
+            if exc.errno == errno.ENAMETOOLONG:
+                return None, False
+            raise
 
     def if_none_match(self, etag: str, if_none_match: str) -> bool:
         if not if_none_match:
